@@ -97,4 +97,42 @@ def emit(repo, spec, H):
         src_e, term = expr_of(fn, lhs, params, nth)
         out.append("(* %s %s: %s = %s *)" % (sf, fn, lhs, src_e))
         out.append("Definition %s %s : Z := %s." % (name, " ".join("(%s : Z)" % a for a in params), term))
+    # ---- mfhdf file.c: the table of open SD/netCDF files (positions are part of every SD id) ----------------
+    ff = "mfhdf/src/file.c"
+    ftxt = H.src(repo, ff)
+    fenv = {}
+    fenv.update(H.all_enums(ftxt))
+
+    def cond_of(fn, pat, params, what):
+        body = H.func_body(ftxt, fn)
+        m = re.search(pat, body, flags=re.S)
+        if not m:
+            raise ValueError("%s: %s not found" % (fn, what))
+        e = " ".join(m.group(1).split())
+        e2 = e
+        for a, b in (("_curr_opened", "curr_opened"), ("_cdfs_size", "cdfs_size"), ("_ncdf", "ncdf")):
+            e2 = re.sub(r"(?<![A-Za-z0-9_])%s\b" % a, b, e2)
+        return e, H.P(e2, params, fenv).ternary_all()
+    for name, fn, pat, params, what in (
+            ("NC_reset_neg_guard", "NC_reset_maxopenfiles", r"if\s*\(\s*(req_max\s*[<>=!]+\s*0)\s*\)", ["req_max"],
+             "negative request guard"),
+            ("NC_reset_curr_guard", "NC_reset_maxopenfiles", r"if\s*\(\s*(req_max\s*[<>=!]+\s*_curr_opened)\s*\)",
+             ["req_max", "curr_opened"], "open-files guard"),
+            ("NC_reset_limit_cond", "NC_reset_maxopenfiles", r"if\s*\(\s*(req_max\s*[<>=!]+\s*sys_limit)\s*\)",
+             ["req_max", "sys_limit"], "system limit condition"),
+            ("NC_reset_guard", "NC_reset_maxopenfiles", r"if\s*\(\s*(alloc_size\s*[<>=!]+\s*old_idx)\s*\)",
+             ["alloc_size", "old_idx"], "highest-position guard"),
+            ("NC_reset_copy_cond", "NC_reset_maxopenfiles",
+             r"for\s*\(\s*new_idx\s*=\s*0\s*;\s*([^;]+);\s*new_idx\+\+\s*\)\s*newlist\[new_idx\]\s*=\s*_cdfs\[new_idx\]",
+             ["new_idx", "cdfs_size", "alloc_size"], "copy loop condition"),
+            ("NC_reset_clamp_cond", "NC_reset_maxopenfiles", r"if\s*\(\s*(_ncdf\s*[<>=!]+\s*alloc_size)\s*\)\s*_ncdf\s*=\s*alloc_size",
+             ["ncdf", "alloc_size"], "_ncdf clamp"),
+            ("NC_check_range", "H4_NC_check_id", r"handle\s*=\s*\(\s*(cdfid[^?]*?)\)\s*\?", ["cdfid", "ncdf"], "range check"),
+            ("NC_open_grow_cond", "NC_open", r"if\s*\(\s*(cdfid\s*==\s*_cdfs_size\s*&&[^)]*)\)", ["cdfid", "cdfs_size", "ncdf", "max_NC_open"],
+             "grow condition"),
+            ("NC_close_top_cond", "H4_ncclose", r"if\s*\(\s*(cdfid\s*==\s*_ncdf\s*-\s*1)\s*\)\s*_ncdf--", ["cdfid", "ncdf"],
+             "high-water decrement")):
+        src_e, term = cond_of(fn, pat, params, what)
+        out.append("(* %s %s: %s: %s *)" % (ff, fn, what, src_e))
+        out.append("Definition %s %s : Z := %s." % (name, " ".join("(%s : Z)" % a for a in params), term))
     return out
